@@ -931,6 +931,64 @@ fn check_e2e(cx: &mut Cx, t: &T, binds: &Binds)
 	cx.report.hit(&format!("e2e:{} of {} orders assemble", oks.len(), results.len()));
 	let key = format!("{:?}", results.iter().map(|(_, r)| r.clone().ok()).collect::<Vec<_>>());
 	cx.report.case(if oks.is_empty() {None} else {Some(&key)});
+
+	// "... or in another file": the statement and ALL its definitions live in an included file; the includer (and a sibling file
+	// included before it) may own constants of the same names with OTHER values. Nothing is imported, so every order that
+	// assembles emits the value of the expression over the included file's own definitions — the same bytes as the single file.
+	let names: Vec<(&String, i64)> = binds.iter().filter_map(|(n, b)| match b {Bind::Known(v) | Bind::Later(v) => Some((n, *v)), Bind::Reg => None}).collect();
+	if names.is_empty() || oks.is_empty() {return;}
+	let single = oks[0].1.clone();
+	let dir = cx.work.join("e2e");
+	std::fs::create_dir_all(&dir).unwrap();
+	let other = |v: i64, k: i64| -> String {T::C(if v == k {k + 1} else {k}).source()};
+	let clash: String = names.iter().map(|(n, v)| format!(".const {n}, {};\n", other(*v, 0x11))).collect();
+	let sibling: String = names.iter().map(|(n, v)| format!(".const {n}, {};\n.du8 {n} & 1;\n", other(*v, 0x22))).collect();
+	let orders = [
+		("definitions above", format!("{defs_now}{defs_later}{stmts}")),
+		("definitions below", format!("{defs_now}{stmts}{defs_later}")),
+		("all definitions below", format!("{stmts}{defs_now}{defs_later}")),
+	];
+	// (name, text of main.asm before the include, whether a sibling is included first)
+	let includers = [("includer without such names", String::new(), false), ("includer owning the names with other values", clash.clone(), false),
+		("sibling and includer owning the names with other values", clash.clone(), true), ("sibling owning the names", String::new(), true)];
+	let mut multi_ok = 0;
+	for (iname, pre, sib) in includers.iter()
+	{
+		for (oname, inc) in orders.iter()
+		{
+			// the region of the included statements starts at 0x100 so that the sibling's bytes (at 0) do not mix with them
+			let main = format!(".addr 0;\n{pre}{}.addr 0x100;\n.include \"inc.asm\";\n", if *sib {".include \"sib.asm\";\n"} else {""});
+			std::fs::write(dir.join("main.asm"), &main).unwrap();
+			std::fs::write(dir.join("inc.asm"), inc).unwrap();
+			if *sib {std::fs::write(dir.join("sib.asm"), &sibling).unwrap();}
+			let path = dir.join("main.asm");
+			let r = guarded(||
+			{
+				let directives = DirectiveList::generate();
+				let mut ctx = Context::new(&Arm6M, &directives);
+				drop(ctx.assemble(main.as_bytes(), path.clone()));
+				if ctx.close_segment().is_err() || !ctx.finalize() {return None;}
+				let mut out = Vec::new();
+				for (range, data) in ctx.output().iter() {if range.get_first() == 0x100 {out.extend_from_slice(data);}}
+				Some(out)
+			});
+			match r
+			{
+				Err(p) => cx.report.oracle_fail(input.clone(), format!("included file, {oname}, {iname}: panic: {p}")),
+				Ok(None) => cx.report.hit("e2e included file: diagnosed"),
+				Ok(Some(b)) =>
+				{
+					multi_ok += 1;
+					if b != single
+					{
+						cx.report.oracle_fail(input.clone(), format!("in an included file with {oname} ({iname}) the statements emit {}, in a single file {}; main.asm = {main:?}, inc.asm = {inc:?}", hex(&b), hex(&single)));
+						return;
+					}
+				},
+			}
+		}
+	}
+	cx.report.hit(&format!("e2e included file: {multi_ok} of 12 variants assemble"));
 }
 
 fn assemble(text: &str) -> Result<Vec<u8>, String>
